@@ -317,15 +317,29 @@ def stage_w_names(rep, rng, n, rctx):
             continue
         text = ('/' if ab else '') + '/'.join(raw)
         _, ctx = rctx.context(base)
+        def inside_builddir(pobj, what):
+            # model-independent: an accepted output path rooted at the build directory must denote a location inside
+            # it (C05_buildpath_inside / C05_relname_inside say so for the model)
+            if pobj.root != I['Root'].builddir:
+                return
+            real = os.path.normpath(pobj.string(rctx.env.base_dirs))
+            if not (real == rctx.builddir or real.startswith(rctx.builddir + os.sep)):
+                rep.fail('%s(%r) in a script of %r is accepted and denotes %r, outside the build directory %r' % (
+                    what, text, '/'.join(base) or '.', real, rctx.builddir),
+                    {'kind': 'output-outside-builddir', 'call': what, 'argument': text, 'submodule': base, 'denotes': real})
         for strict in (True, False):
             try:
-                iv = canon(I['bpath'].buildpath(ctx, text, strict))
+                pobj = I['bpath'].buildpath(ctx, text, strict)
+                iv = canon(pobj)
+                inside_builddir(pobj, 'buildpath[strict=%s]' % strict)
             except ValueError:
                 iv = 'ValueError'
             calls.append(('within.buildpath', [strict, base, ab, raw])); res.append(iv)
         try:
             nm = I['bpath'].relname(ctx, text)
-            iv = canon(I['Path'](nm))
+            pobj = I['Path'](nm)
+            iv = canon(pobj)
+            inside_builddir(pobj, 'relname')
         except ValueError:
             iv = 'ValueError'
         calls.append(('within.relname', [base, ab, raw])); res.append(iv)
